@@ -33,7 +33,7 @@ func init() {
 		Assumptions: []string{"SHA-512/256 collision freedom", "reference model correct"},
 		MinDistinct: 100,
 		Plan: func(tier string) []core.Suite {
-			n := 800
+			n := 3000
 			if tier == "thorough" {
 				n = 40000
 			}
